@@ -819,12 +819,14 @@ Proof. cbv zeta. repeat split; vm_compute; reflexivity. Qed.
    [passthrough_of] --, nothing is computed on the way; inserted cells are sums of counts / of sums (NaN
    for a difference where the flags say so) and NaN for mean, median, stddev. *)
 From Coq Require String.
-From CC Require Base.MeasureExp Base.BasesExp Model.Subtotals Model.Proportions
-     Gen.PassMeasureSrc Gen.StripeBasesSrc Proofs.GenAgreeMeasTac Proofs.GenAgreeBasesTac Proofs.GenAgreePass.
+From CC Require Base.MeasureExp Base.BasesExp Base.Tensor Model.Subtotals Model.Proportions Model.CubeCounts
+     Gen.PassMeasureSrc Gen.StripeBasesSrc Gen.ScalarSrc Gen.StripeFactorySrc Gen.Tables
+     Proofs.GenAgreeTac Proofs.GenAgreeMeasTac Proofs.GenAgreeBasesTac Proofs.GenAgreePass Proofs.GenAgreeScalar.
 Section GenAgreePass_C01.   (* scopes and imports below end with the section *)
-Import Coq.Strings.String CC.Base.MeasureExp CC.Base.BasesExp CC.Model.Subtotals CC.Model.Proportions
-       CC.Gen.PassMeasureSrc CC.Gen.StripeBasesSrc CC.Proofs.GenAgreeMeasTac CC.Proofs.GenAgreeBasesTac
-       CC.Proofs.GenAgreePass.
+Import Coq.Strings.String CC.Base.Tensor CC.Base.MeasureExp CC.Base.BasesExp CC.Model.Subtotals CC.Model.Proportions
+       CC.Model.CubeCounts CC.Gen.PassMeasureSrc CC.Gen.StripeBasesSrc CC.Gen.ScalarSrc CC.Gen.StripeFactorySrc
+       CC.Gen.Tables CC.Proofs.GenAgreeTac CC.Proofs.GenAgreeMeasTac CC.Proofs.GenAgreeBasesTac
+       CC.Proofs.GenAgreePass CC.Proofs.GenAgreeScalar.
 Import Coq.Lists.List.ListNotations CC.Base.XQ CC.Base.ListX.
 Local Close Scope Q_scope.
 Local Open Scope string_scope.
@@ -1064,6 +1066,99 @@ Theorem C01_gen_stripe_StdDev :
   end).
 Proof. exact (conj gen_stripe_StdDev_base_values gen_stripe_StdDev_subtotal_values). Qed.
 Print Assumptions C01_gen_stripe_StdDev.
+
+(* scalar.py MeansScalar (the 0-D nub's data object): means = the constructor argument (cube.means), table_base = that same value, ndim = 0 *)
+Theorem C01_gen_MeansScalar :
+  (match src_MeansScalar_means with
+  | Some e => forall arg, beval (benv_args arg) e = arg "means"
+  | None => True
+  end) /\
+  (match src_MeansScalar_table_base with
+  | Some e => forall arg, beval (benv_args arg) e = arg "means"
+  | None => True
+  end) /\
+  (match src_MeansScalar_ndim with
+  | Some e => forall arg, beval (benv_args arg) e = WScal (Fin 0%Q)
+  | None => True
+  end).
+Proof. exact (conj gen_MeansScalar_means (conj gen_MeansScalar_table_base gen_MeansScalar_ndim)). Qed.
+Print Assumptions C01_gen_MeansScalar.
+
+(* stripe/cubemeasure.py _BaseCubeMeans / Medians / StdDev / Sums .factory: raises iff cube.<measure> is None; the _Mr class iff the rows dimension is MR_SUBVAR, else _Cat; constructed on (rows_dimension, cube.<measure>), which land in the field the methods read *)
+Theorem C01_gen_stripe_numeric_factories :
+  (match ssrc_CubeMeans_factory, tbl_DT_members with
+  | Some (guard, D, args, flds), Some _ =>
+      guard = "means" /\ args = ["rows_dimension"; "cube.means"] /\
+      assoc "_means" flds = Some "means" /\
+      forall k, stripe_pick false k (fst D) (snd D)
+                = ((if is_mr_kind k then "_MrCubeMeans" else "_CatCubeMeans"), false)
+  | _, _ => True
+  end) /\
+  (match ssrc_CubeMedians_factory, tbl_DT_members with
+  | Some (guard, D, args, flds), Some _ =>
+      guard = "medians" /\ args = ["rows_dimension"; "cube.medians"] /\
+      assoc "_medians" flds = Some "medians" /\
+      forall k, stripe_pick false k (fst D) (snd D)
+                = ((if is_mr_kind k then "_MrCubeMedians" else "_CatCubeMedians"), false)
+  | _, _ => True
+  end) /\
+  (match ssrc_CubeStdDev_factory, tbl_DT_members with
+  | Some (guard, D, args, flds), Some _ =>
+      guard = "stddev" /\ args = ["rows_dimension"; "cube.stddev"] /\
+      assoc "_stddev" flds = Some "stddev" /\
+      forall k, stripe_pick false k (fst D) (snd D)
+                = ((if is_mr_kind k then "_MrCubeStdDev" else "_CatCubeStdDev"), false)
+  | _, _ => True
+  end) /\
+  (match ssrc_CubeSums_factory, tbl_DT_members with
+  | Some (guard, D, args, flds), Some _ =>
+      guard = "sums" /\ args = ["rows_dimension"; "cube.sums"] /\
+      assoc "_sums" flds = Some "sums" /\
+      forall k, stripe_pick false k (fst D) (snd D)
+                = ((if is_mr_kind k then "_MrCubeSums" else "_CatCubeSums"), false)
+  | _, _ => True
+  end).
+Proof. exact (conj gen_stripe_CubeMeans_factory (conj gen_stripe_CubeMedians_factory (conj gen_stripe_CubeStdDev_factory gen_stripe_CubeSums_factory))). Qed.
+Print Assumptions C01_gen_stripe_numeric_factories.
+
+(* stripe CubeMeasures: which factory on which arguments; the counts are the VALID counts when the cube has them, else the plain ones *)
+Theorem C01_gen_stripe_CubeMeasures :
+  (match ssrc_CubeMeasures_cube_means with
+  | Some e => e = CMFactory "_BaseCubeMeans" [KField "cube"; KField "rows_dimension"]
+  | None => True
+  end) /\
+  (match ssrc_CubeMeasures_cube_medians with
+  | Some e => e = CMFactory "_BaseCubeMedians" [KField "cube"; KField "rows_dimension"]
+  | None => True
+  end) /\
+  (match ssrc_CubeMeasures_cube_stddev with
+  | Some e => e = CMFactory "_BaseCubeStdDev" [KField "cube"; KField "rows_dimension"]
+  | None => True
+  end) /\
+  (match ssrc_CubeMeasures_cube_sum with
+  | Some e => e = CMFactory "_BaseCubeSums" [KField "cube"; KField "rows_dimension"]
+  | None => True
+  end) /\
+  (match ssrc_CubeMeasures_unweighted_cube_counts with
+  | Some (CMFactory base args) =>
+      base = "_BaseCubeCounts" /\
+      tl args = [KField "rows_dimension"; KField "ca_as_0th"; KField "slice_idx"] /\
+      forall (A : Type) (field cube : string -> option A),
+        option_map (carg_eval field cube) (hd_error args)
+        = Some (match cube "unweighted_valid_counts" with Some v => Some v | None => cube "unweighted_counts" end)
+  | None => True
+  end) /\
+  (match ssrc_CubeMeasures_weighted_cube_counts with
+  | Some (CMFactory base args) =>
+      base = "_BaseCubeCounts" /\
+      tl args = [KField "rows_dimension"; KField "ca_as_0th"; KField "slice_idx"] /\
+      forall (A : Type) (field cube : string -> option A),
+        option_map (carg_eval field cube) (hd_error args)
+        = Some (match cube "weighted_valid_counts" with Some v => Some v | None => cube "counts" end)
+  | None => True
+  end).
+Proof. exact (conj gen_stripe_CubeMeasures_cube_means (conj gen_stripe_CubeMeasures_cube_medians (conj gen_stripe_CubeMeasures_cube_stddev (conj gen_stripe_CubeMeasures_cube_sum (conj gen_stripe_CubeMeasures_unweighted_cube_counts gen_stripe_CubeMeasures_weighted_cube_counts))))). Qed.
+Print Assumptions C01_gen_stripe_CubeMeasures.
 
 
 (* non-vacuity: the TRANSLATED strand terms run on counts [2 3 4] with the subtotals {0,2} and 2 - 1:
@@ -1398,3 +1493,532 @@ Print Assumptions C01_wiring_StripeCubeMeasures_weighted_cube_counts.
 
 End Wiring_C01.
 (* ---- WIRING-APPENDIX:END ---- *)
+
+(*BEGIN GenAgreeCube_C01*)
+(* ------------------------------------------------------------------------------------ *)
+(* SOURCE TEXT of src/cr/cube/cube.py.  Gen/CubeSrc.v is regenerated on every check by
+   harness/translate/x_cube.py (shallow translation: every member of CubeSet / Cube / _Measures / the
+   _BaseMeasure family, inheritance flattened, as a Gallina function over the Python-semantics combinators
+   of Base/PyList.v + Base/PyJson.v + Model/PyCube.v; [X] = what cube.py calls in other modules -
+   Dimensions.from_dicts, json.loads - as parameters; `self.<member>` = the generated function of that
+   member).  For ALL inputs each generated function IS the model definition the theorems above are about;
+   a statement `match src_f, src_g with Some f, Some g => forall .., g X c = POk v -> ..` reads: whenever
+   the member g of the same object evaluates to v.  [None] = the member is outside the translator's
+   whitelist (then only the correspondence ties it). *)
+From CC Require Proofs.GenAgreeCubeLib Proofs.GenAgreeCubeBase Proofs.GenAgreeCubeArray Proofs.GenAgreeCubeCounts Proofs.GenAgreeCubeDims Proofs.GenAgreeCubeNumeric Proofs.GenAgreeCubeSet.
+Section GenAgreeCube_C01.   (* scopes and imports below end with the section *)
+Import Coq.Lists.List Coq.ZArith.ZArith Coq.QArith.QArith Coq.Strings.String Coq.Bool.Bool CC.Base.XQ
+       CC.Base.PyList CC.Base.PyJson CC.Spec.Survey CC.Model.CubeCounts CC.Model.DimType CC.Model.Population
+       CC.Model.Partition CC.Model.PyCube CC.Gen.CubeSrc CC.Proofs.GenAgreeCubeLib CC.Proofs.GenAgreeCubeBase CC.Proofs.GenAgreeCubeArray CC.Proofs.GenAgreeCubeCounts CC.Proofs.GenAgreeCubeDims CC.Proofs.GenAgreeCubeNumeric CC.Proofs.GenAgreeCubeSet.
+Import Coq.Lists.List.ListNotations.
+Local Close Scope Q_scope.
+Local Open Scope Z_scope.
+Local Open Scope string_scope.
+
+Theorem C01_gen_cube_UnweightedCountMeasure__flat_values :
+  match src__UnweightedCountMeasure__flat_values with
+  | Some f => forall X cls p more dims idx,
+      f X (mkPyMeasure cls (count_response p more) dims idx) = POk (some_arr (Some (p_counts p)))
+  | None => True end.
+Proof. exact gen_cube_UnweightedCountMeasure__flat_values. Qed.
+Print Assumptions C01_gen_cube_UnweightedCountMeasure__flat_values.
+
+Theorem C01_gen_cube_WeightedCountMeasure__flat_values :
+  match src__WeightedCountMeasure__flat_values with
+  | Some f => forall X cls p more dims idx,
+      f X (mkPyMeasure cls (count_response p more) dims idx) = POk (some_arr (weighted_payload p))
+  | None => True end.
+Proof. exact gen_cube_WeightedCountMeasure__flat_values. Qed.
+Print Assumptions C01_gen_cube_WeightedCountMeasure__flat_values.
+
+Theorem C01_gen_cube_UnweightedValidCountsMeasure__flat_values :
+  match src__UnweightedValidCountsMeasure__flat_values with
+  | Some f => forall X cls p more dims idx,
+      f X (mkPyMeasure cls (count_response p more) dims idx) = POk (some_arr (nonempty (p_vcu p)))
+  | None => True end.
+Proof. exact gen_cube_UnweightedValidCountsMeasure__flat_values. Qed.
+Print Assumptions C01_gen_cube_UnweightedValidCountsMeasure__flat_values.
+
+Theorem C01_gen_cube_WeightedValidCountsMeasure__flat_values :
+  match src__WeightedValidCountsMeasure__flat_values with
+  | Some f => forall X cls p more dims idx,
+      f X (mkPyMeasure cls (count_response p more) dims idx) = POk (some_arr (nonempty (p_vcw p)))
+  | None => True end.
+Proof. exact gen_cube_WeightedValidCountsMeasure__flat_values. Qed.
+Print Assumptions C01_gen_cube_WeightedValidCountsMeasure__flat_values.
+
+Theorem C01_gen_cube_UnweightedCountMeasure__shape :
+  match src__UnweightedCountMeasure__shape with
+  | Some f => forall X m, f X m = POk (pds_shape (bm_all_dimensions m))
+  | None => True end.
+Proof. exact gen_cube_UnweightedCountMeasure__shape. Qed.
+Print Assumptions C01_gen_cube_UnweightedCountMeasure__shape.
+
+Theorem C01_gen_cube_WeightedCountMeasure__shape :
+  match src__WeightedCountMeasure__shape with
+  | Some f => forall X m, f X m = POk (pds_shape (bm_all_dimensions m))
+  | None => True end.
+Proof. exact gen_cube_WeightedCountMeasure__shape. Qed.
+Print Assumptions C01_gen_cube_WeightedCountMeasure__shape.
+
+Theorem C01_gen_cube_UnweightedValidCountsMeasure__shape :
+  match src__UnweightedValidCountsMeasure__shape with
+  | Some f => forall X m, f X m = POk (pds_shape (bm_all_dimensions m))
+  | None => True end.
+Proof. exact gen_cube_UnweightedValidCountsMeasure__shape. Qed.
+Print Assumptions C01_gen_cube_UnweightedValidCountsMeasure__shape.
+
+Theorem C01_gen_cube_WeightedValidCountsMeasure__shape :
+  match src__WeightedValidCountsMeasure__shape with
+  | Some f => forall X m, f X m = POk (pds_shape (bm_all_dimensions m))
+  | None => True end.
+Proof. exact gen_cube_WeightedValidCountsMeasure__shape. Qed.
+Print Assumptions C01_gen_cube_WeightedValidCountsMeasure__shape.
+
+Theorem C01_gen_cube_UnweightedCountMeasure_raw_cube_array :
+  match src__UnweightedCountMeasure_raw_cube_array, src__UnweightedCountMeasure__flat_values,
+        src__UnweightedCountMeasure__shape with
+  | Some f, Some g1, Some g2 => forall X m o sh,
+      g1 X m = POk (some_arr o) -> g2 X m = POk (map Z.of_nat sh) -> f X m = POk (raw_array sh o)
+  | _, _, _ => True end.
+Proof. exact gen_cube_UnweightedCountMeasure_raw_cube_array. Qed.
+Print Assumptions C01_gen_cube_UnweightedCountMeasure_raw_cube_array.
+
+Theorem C01_gen_cube_WeightedCountMeasure_raw_cube_array :
+  match src__WeightedCountMeasure_raw_cube_array, src__WeightedCountMeasure__flat_values,
+        src__WeightedCountMeasure__shape with
+  | Some f, Some g1, Some g2 => forall X m o sh,
+      g1 X m = POk (some_arr o) -> g2 X m = POk (map Z.of_nat sh) -> f X m = POk (raw_array sh o)
+  | _, _, _ => True end.
+Proof. exact gen_cube_WeightedCountMeasure_raw_cube_array. Qed.
+Print Assumptions C01_gen_cube_WeightedCountMeasure_raw_cube_array.
+
+Theorem C01_gen_cube_UnweightedValidCountsMeasure_raw_cube_array :
+  match src__UnweightedValidCountsMeasure_raw_cube_array, src__UnweightedValidCountsMeasure__flat_values,
+        src__UnweightedValidCountsMeasure__shape with
+  | Some f, Some g1, Some g2 => forall X m o sh,
+      g1 X m = POk (some_arr o) -> g2 X m = POk (map Z.of_nat sh) -> f X m = POk (raw_array sh o)
+  | _, _, _ => True end.
+Proof. exact gen_cube_UnweightedValidCountsMeasure_raw_cube_array. Qed.
+Print Assumptions C01_gen_cube_UnweightedValidCountsMeasure_raw_cube_array.
+
+Theorem C01_gen_cube_WeightedValidCountsMeasure_raw_cube_array :
+  match src__WeightedValidCountsMeasure_raw_cube_array, src__WeightedValidCountsMeasure__flat_values,
+        src__WeightedValidCountsMeasure__shape with
+  | Some f, Some g1, Some g2 => forall X m o sh,
+      g1 X m = POk (some_arr o) -> g2 X m = POk (map Z.of_nat sh) -> f X m = POk (raw_array sh o)
+  | _, _, _ => True end.
+Proof. exact gen_cube_WeightedValidCountsMeasure_raw_cube_array. Qed.
+Print Assumptions C01_gen_cube_WeightedValidCountsMeasure_raw_cube_array.
+
+Theorem C01_gen_cube_UnweightedCountMeasure_raw_cube_array_counts :
+  match src__UnweightedCountMeasure_raw_cube_array with
+  | Some f => forall X cls p more vs idx,
+      f X (count_measure cls p more vs idx) = POk (raw_array (raw_shape (dims_of vs)) (Some (p_counts p)))
+  | None => True end.
+Proof. exact gen_cube_UnweightedCountMeasure_raw_cube_array_counts. Qed.
+Print Assumptions C01_gen_cube_UnweightedCountMeasure_raw_cube_array_counts.
+
+Theorem C01_gen_cube_WeightedCountMeasure_raw_cube_array_counts :
+  match src__WeightedCountMeasure_raw_cube_array with
+  | Some f => forall X cls p more vs idx,
+      f X (count_measure cls p more vs idx) = POk (raw_array (raw_shape (dims_of vs)) (weighted_payload p))
+  | None => True end.
+Proof. exact gen_cube_WeightedCountMeasure_raw_cube_array_counts. Qed.
+Print Assumptions C01_gen_cube_WeightedCountMeasure_raw_cube_array_counts.
+
+Theorem C01_gen_cube_UnweightedValidCountsMeasure_raw_cube_array_counts :
+  match src__UnweightedValidCountsMeasure_raw_cube_array with
+  | Some f => forall X cls p more vs idx,
+      f X (count_measure cls p more vs idx) = POk (raw_array (raw_shape (dims_of vs)) (nonempty (p_vcu p)))
+  | None => True end.
+Proof. exact gen_cube_UnweightedValidCountsMeasure_raw_cube_array_counts. Qed.
+Print Assumptions C01_gen_cube_UnweightedValidCountsMeasure_raw_cube_array_counts.
+
+Theorem C01_gen_cube_WeightedValidCountsMeasure_raw_cube_array_counts :
+  match src__WeightedValidCountsMeasure_raw_cube_array with
+  | Some f => forall X cls p more vs idx,
+      f X (count_measure cls p more vs idx) = POk (raw_array (raw_shape (dims_of vs)) (nonempty (p_vcw p)))
+  | None => True end.
+Proof. exact gen_cube_WeightedValidCountsMeasure_raw_cube_array_counts. Qed.
+Print Assumptions C01_gen_cube_WeightedValidCountsMeasure_raw_cube_array_counts.
+
+Theorem C01_gen_cube_UnweightedCountMeasure___init__ :
+  match src__UnweightedCountMeasure___init__ with
+  | Some f => forall cd dims idx, f cd dims idx = mkPyMeasure MC_UnweightedCount cd dims idx
+  | None => True end.
+Proof. exact gen_cube_UnweightedCountMeasure___init__. Qed.
+Print Assumptions C01_gen_cube_UnweightedCountMeasure___init__.
+
+Theorem C01_gen_cube_WeightedCountMeasure___init__ :
+  match src__WeightedCountMeasure___init__ with
+  | Some f => forall cd dims idx, f cd dims idx = mkPyMeasure MC_WeightedCount cd dims idx
+  | None => True end.
+Proof. exact gen_cube_WeightedCountMeasure___init__. Qed.
+Print Assumptions C01_gen_cube_WeightedCountMeasure___init__.
+
+Theorem C01_gen_cube_UnweightedValidCountsMeasure___init__ :
+  match src__UnweightedValidCountsMeasure___init__ with
+  | Some f => forall cd dims idx, f cd dims idx = mkPyMeasure MC_UnweightedValidCounts cd dims idx
+  | None => True end.
+Proof. exact gen_cube_UnweightedValidCountsMeasure___init__. Qed.
+Print Assumptions C01_gen_cube_UnweightedValidCountsMeasure___init__.
+
+Theorem C01_gen_cube_WeightedValidCountsMeasure___init__ :
+  match src__WeightedValidCountsMeasure___init__ with
+  | Some f => forall cd dims idx, f cd dims idx = mkPyMeasure MC_WeightedValidCounts cd dims idx
+  | None => True end.
+Proof. exact gen_cube_WeightedValidCountsMeasure___init__. Qed.
+Print Assumptions C01_gen_cube_WeightedValidCountsMeasure___init__.
+
+Theorem C01_gen_cube_Measures_unweighted_counts :
+  match src__Measures_unweighted_counts with
+  | Some f => forall X cd dims idx,
+      f X (mkPyMeasures cd dims idx) = POk (mkPyMeasure MC_UnweightedCount cd dims idx)
+  | None => True end.
+Proof. exact gen_cube_Measures_unweighted_counts. Qed.
+Print Assumptions C01_gen_cube_Measures_unweighted_counts.
+
+Theorem C01_gen_cube_Measures_weighted_counts :
+  match src__Measures_weighted_counts with
+  | Some f => forall X p more vs idx,
+      f X (count_measures p more vs idx)
+      = POk (opt_measure MC_WeightedCount (count_response p more) (pydims_of vs) idx
+                         (raw_array (raw_shape (dims_of vs)) (weighted_payload p)))
+  | None => True end.
+Proof. exact gen_cube_Measures_weighted_counts. Qed.
+Print Assumptions C01_gen_cube_Measures_weighted_counts.
+
+Theorem C01_gen_cube_Measures_unweighted_valid_counts :
+  match src__Measures_unweighted_valid_counts with
+  | Some f => forall X p more vs idx,
+      f X (count_measures p more vs idx)
+      = POk (opt_measure MC_UnweightedValidCounts (count_response p more) (pydims_of vs) idx
+                         (raw_array (raw_shape (dims_of vs)) (nonempty (p_vcu p))))
+  | None => True end.
+Proof. exact gen_cube_Measures_unweighted_valid_counts. Qed.
+Print Assumptions C01_gen_cube_Measures_unweighted_valid_counts.
+
+Theorem C01_gen_cube_Measures_weighted_valid_counts :
+  match src__Measures_weighted_valid_counts with
+  | Some f => forall X p more vs idx,
+      f X (count_measures p more vs idx)
+      = POk (opt_measure MC_WeightedValidCounts (count_response p more) (pydims_of vs) idx
+                         (raw_array (raw_shape (dims_of vs)) (nonempty (p_vcw p))))
+  | None => True end.
+Proof. exact gen_cube_Measures_weighted_valid_counts. Qed.
+Print Assumptions C01_gen_cube_Measures_weighted_valid_counts.
+
+Theorem C01_gen_cube_Cube__valid_idxs :
+  match src_Cube__valid_idxs, src_Cube__all_dimensions with
+  | Some f, Some g => forall X c vs, g X c = POk (pydims_of vs) ->
+      f X c = POk (valid_grid (dims_of vs))
+  | _, _ => True end.
+Proof. exact gen_cube_Cube__valid_idxs. Qed.
+Print Assumptions C01_gen_cube_Cube__valid_idxs.
+
+Theorem C01_gen_cube_Cube_unweighted_counts :
+  match src_Cube_unweighted_counts, src_Cube__cube_response, src_Cube__all_dimensions with
+  | Some f, Some g1, Some g2 => forall X c p more vs,
+      g1 X c = POk (count_response p more) -> g2 X c = POk (pydims_of vs) ->
+      payload_fits (dims_of vs) p ->
+      reads (f X c) (map nvalid (dims_of vs)) (valid_tensor (dims_of vs) (unweighted_counts_payload p))
+  | _, _, _ => True end.
+Proof. exact gen_cube_Cube_unweighted_counts. Qed.
+Print Assumptions C01_gen_cube_Cube_unweighted_counts.
+
+Theorem C01_gen_cube_Cube_weighted_counts :
+  match src_Cube_weighted_counts, src_Cube__cube_response, src_Cube__all_dimensions with
+  | Some f, Some g1, Some g2 => forall X c p more vs,
+      g1 X c = POk (count_response p more) -> g2 X c = POk (pydims_of vs) ->
+      payload_fits (dims_of vs) p ->
+      reads_opt (f X c) (map nvalid (dims_of vs))
+                (option_map (valid_tensor (dims_of vs)) (weighted_choice p))
+  | _, _, _ => True end.
+Proof. exact gen_cube_Cube_weighted_counts. Qed.
+Print Assumptions C01_gen_cube_Cube_weighted_counts.
+
+Theorem C01_gen_cube_Cube_has_weighted_counts :
+  match src_Cube_has_weighted_counts, src_Cube__cube_response, src_Cube__all_dimensions with
+  | Some f, Some g1, Some g2 => forall X c p more vs,
+      g1 X c = POk (count_response p more) -> g2 X c = POk (pydims_of vs) ->
+      payload_fits (dims_of vs) p ->
+      f X c = POk (match weighted_choice p with Some _ => true | None => false end)
+  | _, _, _ => True end.
+Proof. exact gen_cube_Cube_has_weighted_counts. Qed.
+Print Assumptions C01_gen_cube_Cube_has_weighted_counts.
+
+Theorem C01_gen_cube_Cube_counts_with_missings :
+  match src_Cube_counts_with_missings, src_Cube__cube_response, src_Cube__all_dimensions with
+  | Some f, Some g1, Some g2 => forall X c p more vs,
+      g1 X c = POk (count_response p more) -> g2 X c = POk (pydims_of vs) ->
+      payload_fits (dims_of vs) p ->
+      f X c = POk (Some (mkArr (raw_shape (dims_of vs)) (cwm_payload p)))
+  | _, _, _ => True end.
+Proof. exact gen_cube_Cube_counts_with_missings. Qed.
+Print Assumptions C01_gen_cube_Cube_counts_with_missings.
+
+Theorem C01_gen_cube_Cube_counts :
+  match src_Cube_counts, src_Cube__cube_response, src_Cube__all_dimensions with
+  | Some f, Some g1, Some g2 => forall X c p more vs,
+      g1 X c = POk (count_response p more) -> g2 X c = POk (pydims_of vs) ->
+      payload_fits (dims_of vs) p ->
+      reads (f X c) (map nvalid (dims_of vs)) (valid_tensor (dims_of vs) (cwm_payload p))
+  | _, _, _ => True end.
+Proof. exact gen_cube_Cube_counts. Qed.
+Print Assumptions C01_gen_cube_Cube_counts.
+
+Theorem C01_gen_cube_Cube_unweighted_valid_counts :
+  match src_Cube_unweighted_valid_counts, src_Cube__cube_response, src_Cube__all_dimensions with
+  | Some f, Some g1, Some g2 => forall X c p more vs,
+      g1 X c = POk (count_response p more) -> g2 X c = POk (pydims_of vs) ->
+      payload_fits (dims_of vs) p ->
+      reads_opt (f X c) (map nvalid (dims_of vs))
+                (option_map (valid_tensor (dims_of vs)) (nonempty (p_vcu p)))
+  | _, _, _ => True end.
+Proof. exact gen_cube_Cube_unweighted_valid_counts. Qed.
+Print Assumptions C01_gen_cube_Cube_unweighted_valid_counts.
+
+Theorem C01_gen_cube_Cube_weighted_valid_counts :
+  match src_Cube_weighted_valid_counts, src_Cube__cube_response, src_Cube__all_dimensions with
+  | Some f, Some g1, Some g2 => forall X c p more vs,
+      g1 X c = POk (count_response p more) -> g2 X c = POk (pydims_of vs) ->
+      payload_fits (dims_of vs) p ->
+      reads_opt (f X c) (map nvalid (dims_of vs))
+                (option_map (valid_tensor (dims_of vs)) (nonempty (p_vcw p)))
+  | _, _, _ => True end.
+Proof. exact gen_cube_Cube_weighted_valid_counts. Qed.
+Print Assumptions C01_gen_cube_Cube_weighted_valid_counts.
+
+Theorem C01_gen_cube_Cube__all_dimensions :
+  match src_Cube__all_dimensions, src_Cube__numeric_array_dimension, src_Cube__cube_response with
+  | Some f, Some g1, Some g2 => forall X c numdim res dimsj,
+      g1 X c = POk numdim -> g2 X c = POk (JDict [("result", JDict res)]) ->
+      py_dict_get String.eqb res "dimensions" = Some (JList dimsj) ->
+      f X c = x_from_dicts X (JList (if json_truthy numdim then numdim :: dimsj else dimsj))
+  | _, _, _ => True end.
+Proof. exact gen_cube_Cube__all_dimensions. Qed.
+Print Assumptions C01_gen_cube_Cube__all_dimensions.
+
+Theorem C01_gen_cube_Cube__numeric_array_dimension_counts :
+  match src_Cube__numeric_array_dimension, src_Cube__cube_response with
+  | Some f, Some g => forall X c p more,
+      g X c = POk (count_response p more) -> f X c = POk JNull
+  | _, _ => True end.
+Proof. exact gen_cube_Cube__numeric_array_dimension_counts. Qed.
+Print Assumptions C01_gen_cube_Cube__numeric_array_dimension_counts.
+
+Theorem C01_gen_cube_Cube__all_dimensions_counts :
+  match src_Cube__all_dimensions, src_Cube__cube_response with
+  | Some f, Some g => forall X c p more dimsj,
+      g X c = POk (count_response p more) ->
+      py_dict_get String.eqb more "dimensions" = Some (JList dimsj) ->
+      f X c = x_from_dicts X (JList dimsj)
+  | _, _ => True end.
+Proof. exact gen_cube_Cube__all_dimensions_counts. Qed.
+Print Assumptions C01_gen_cube_Cube__all_dimensions_counts.
+
+Theorem C01_gen_cube_MeanMeasure__flat_values :
+  match src__MeanMeasure__flat_values with
+  | Some f => forall X cls ms more dims idx,
+      (forall l, has_numeric ms "mean" l ->
+         f X (mkPyMeasure cls (measures_response ms more) dims idx) = POk (some_arr (Some (num_decode l)))) /\
+      (dget ms "mean" = None ->
+         f X (mkPyMeasure cls (measures_response ms more) dims idx) = POk None)
+  | None => True end.
+Proof. exact gen_cube_MeanMeasure__flat_values. Qed.
+Print Assumptions C01_gen_cube_MeanMeasure__flat_values.
+
+Theorem C01_gen_cube_MeanMeasure__shape :
+  match src__MeanMeasure__shape with
+  | Some f => forall X m, f X m = POk (pds_shape (bm_all_dimensions m))
+  | None => True end.
+Proof. exact gen_cube_MeanMeasure__shape. Qed.
+Print Assumptions C01_gen_cube_MeanMeasure__shape.
+
+Theorem C01_gen_cube_MeanMeasure_raw_cube_array :
+  match src__MeanMeasure_raw_cube_array, src__MeanMeasure__flat_values, src__MeanMeasure__shape with
+  | Some f, Some g1, Some g2 => forall X m o sh,
+      g1 X m = POk (some_arr o) -> g2 X m = POk (map Z.of_nat sh) -> f X m = POk (raw_array sh o)
+  | _, _, _ => True end.
+Proof. exact gen_cube_MeanMeasure_raw_cube_array. Qed.
+Print Assumptions C01_gen_cube_MeanMeasure_raw_cube_array.
+
+Theorem C01_gen_cube_MeanMeasure_raw_cube_array_numeric :
+  match src__MeanMeasure_raw_cube_array with
+  | Some f => forall X cls ms more vs idx,
+      (forall l, has_numeric ms "mean" l ->
+         f X (mkPyMeasure cls (measures_response ms more) (pydims_of vs) idx)
+         = POk (raw_array (raw_shape (dims_of vs)) (Some (num_decode l)))) /\
+      (dget ms "mean" = None ->
+         f X (mkPyMeasure cls (measures_response ms more) (pydims_of vs) idx) = POk None)
+  | None => True end.
+Proof. exact gen_cube_MeanMeasure_raw_cube_array_numeric. Qed.
+Print Assumptions C01_gen_cube_MeanMeasure_raw_cube_array_numeric.
+
+Theorem C01_gen_cube_MeanMeasure___init__ :
+  match src__MeanMeasure___init__ with
+  | Some f => forall cd dims idx, f cd dims idx = mkPyMeasure MC_Mean cd dims idx
+  | None => True end.
+Proof. exact gen_cube_MeanMeasure___init__. Qed.
+Print Assumptions C01_gen_cube_MeanMeasure___init__.
+
+Theorem C01_gen_cube_Measures_means :
+  match src__Measures_means, src__MeanMeasure_raw_cube_array with
+  | Some f, Some g => forall X cd dims idx r,
+      g X (mkPyMeasure MC_Mean cd dims idx) = POk r ->
+      f X (mkPyMeasures cd dims idx) = POk (opt_measure MC_Mean cd dims idx r)
+  | _, _ => True end.
+Proof. exact gen_cube_Measures_means. Qed.
+Print Assumptions C01_gen_cube_Measures_means.
+
+Theorem C01_gen_cube_Cube_means :
+  match src_Cube_means, src_Cube__cube_response, src_Cube__all_dimensions with
+  | Some f, Some g1, Some g2 => forall X c ms more vs,
+      g1 X c = POk (measures_response ms more) -> g2 X c = POk (pydims_of vs) ->
+      (forall l, has_numeric ms "mean" l -> List.length l = size_of (raw_shape (dims_of vs)) ->
+         reads_opt (f X c) (map nvalid (dims_of vs)) (Some (valid_tensor (dims_of vs) (num_decode l)))) /\
+      (dget ms "mean" = None -> f X c = POk None)
+  | _, _, _ => True end.
+Proof. exact gen_cube_Cube_means. Qed.
+Print Assumptions C01_gen_cube_Cube_means.
+
+Theorem C01_gen_cube_SumMeasure__flat_values :
+  match src__SumMeasure__flat_values with
+  | Some f => forall X cls ms more dims idx,
+      (forall l, has_numeric ms "sum" l ->
+         f X (mkPyMeasure cls (measures_response ms more) dims idx) = POk (some_arr (Some (num_decode l)))) /\
+      (dget ms "sum" = None ->
+         f X (mkPyMeasure cls (measures_response ms more) dims idx) = POk None)
+  | None => True end.
+Proof. exact gen_cube_SumMeasure__flat_values. Qed.
+Print Assumptions C01_gen_cube_SumMeasure__flat_values.
+
+Theorem C01_gen_cube_SumMeasure__shape :
+  match src__SumMeasure__shape with
+  | Some f => forall X m, f X m = POk (pds_shape (bm_all_dimensions m))
+  | None => True end.
+Proof. exact gen_cube_SumMeasure__shape. Qed.
+Print Assumptions C01_gen_cube_SumMeasure__shape.
+
+Theorem C01_gen_cube_SumMeasure_raw_cube_array :
+  match src__SumMeasure_raw_cube_array, src__SumMeasure__flat_values, src__SumMeasure__shape with
+  | Some f, Some g1, Some g2 => forall X m o sh,
+      g1 X m = POk (some_arr o) -> g2 X m = POk (map Z.of_nat sh) -> f X m = POk (raw_array sh o)
+  | _, _, _ => True end.
+Proof. exact gen_cube_SumMeasure_raw_cube_array. Qed.
+Print Assumptions C01_gen_cube_SumMeasure_raw_cube_array.
+
+Theorem C01_gen_cube_SumMeasure_raw_cube_array_numeric :
+  match src__SumMeasure_raw_cube_array with
+  | Some f => forall X cls ms more vs idx,
+      (forall l, has_numeric ms "sum" l ->
+         f X (mkPyMeasure cls (measures_response ms more) (pydims_of vs) idx)
+         = POk (raw_array (raw_shape (dims_of vs)) (Some (num_decode l)))) /\
+      (dget ms "sum" = None ->
+         f X (mkPyMeasure cls (measures_response ms more) (pydims_of vs) idx) = POk None)
+  | None => True end.
+Proof. exact gen_cube_SumMeasure_raw_cube_array_numeric. Qed.
+Print Assumptions C01_gen_cube_SumMeasure_raw_cube_array_numeric.
+
+Theorem C01_gen_cube_SumMeasure___init__ :
+  match src__SumMeasure___init__ with
+  | Some f => forall cd dims idx, f cd dims idx = mkPyMeasure MC_Sum cd dims idx
+  | None => True end.
+Proof. exact gen_cube_SumMeasure___init__. Qed.
+Print Assumptions C01_gen_cube_SumMeasure___init__.
+
+Theorem C01_gen_cube_Measures_sums :
+  match src__Measures_sums, src__SumMeasure_raw_cube_array with
+  | Some f, Some g => forall X cd dims idx r,
+      g X (mkPyMeasure MC_Sum cd dims idx) = POk r ->
+      f X (mkPyMeasures cd dims idx) = POk (opt_measure MC_Sum cd dims idx r)
+  | _, _ => True end.
+Proof. exact gen_cube_Measures_sums. Qed.
+Print Assumptions C01_gen_cube_Measures_sums.
+
+Theorem C01_gen_cube_Cube_sums :
+  match src_Cube_sums, src_Cube__cube_response, src_Cube__all_dimensions with
+  | Some f, Some g1, Some g2 => forall X c ms more vs,
+      g1 X c = POk (measures_response ms more) -> g2 X c = POk (pydims_of vs) ->
+      (forall l, has_numeric ms "sum" l -> List.length l = size_of (raw_shape (dims_of vs)) ->
+         reads_opt (f X c) (map nvalid (dims_of vs)) (Some (valid_tensor (dims_of vs) (num_decode l)))) /\
+      (dget ms "sum" = None -> f X c = POk None)
+  | _, _, _ => True end.
+Proof. exact gen_cube_Cube_sums. Qed.
+Print Assumptions C01_gen_cube_Cube_sums.
+
+Theorem C01_gen_cube_StdDevMeasure__flat_values :
+  match src__StdDevMeasure__flat_values with
+  | Some f => forall X cls ms more dims idx,
+      (forall l, has_numeric ms "stddev" l ->
+         f X (mkPyMeasure cls (measures_response ms more) dims idx) = POk (some_arr (Some (num_decode l)))) /\
+      (dget ms "stddev" = None ->
+         f X (mkPyMeasure cls (measures_response ms more) dims idx) = POk None)
+  | None => True end.
+Proof. exact gen_cube_StdDevMeasure__flat_values. Qed.
+Print Assumptions C01_gen_cube_StdDevMeasure__flat_values.
+
+Theorem C01_gen_cube_StdDevMeasure__shape :
+  match src__StdDevMeasure__shape with
+  | Some f => forall X m, f X m = POk (pds_shape (bm_all_dimensions m))
+  | None => True end.
+Proof. exact gen_cube_StdDevMeasure__shape. Qed.
+Print Assumptions C01_gen_cube_StdDevMeasure__shape.
+
+Theorem C01_gen_cube_StdDevMeasure_raw_cube_array :
+  match src__StdDevMeasure_raw_cube_array, src__StdDevMeasure__flat_values, src__StdDevMeasure__shape with
+  | Some f, Some g1, Some g2 => forall X m o sh,
+      g1 X m = POk (some_arr o) -> g2 X m = POk (map Z.of_nat sh) -> f X m = POk (raw_array sh o)
+  | _, _, _ => True end.
+Proof. exact gen_cube_StdDevMeasure_raw_cube_array. Qed.
+Print Assumptions C01_gen_cube_StdDevMeasure_raw_cube_array.
+
+Theorem C01_gen_cube_StdDevMeasure_raw_cube_array_numeric :
+  match src__StdDevMeasure_raw_cube_array with
+  | Some f => forall X cls ms more vs idx,
+      (forall l, has_numeric ms "stddev" l ->
+         f X (mkPyMeasure cls (measures_response ms more) (pydims_of vs) idx)
+         = POk (raw_array (raw_shape (dims_of vs)) (Some (num_decode l)))) /\
+      (dget ms "stddev" = None ->
+         f X (mkPyMeasure cls (measures_response ms more) (pydims_of vs) idx) = POk None)
+  | None => True end.
+Proof. exact gen_cube_StdDevMeasure_raw_cube_array_numeric. Qed.
+Print Assumptions C01_gen_cube_StdDevMeasure_raw_cube_array_numeric.
+
+Theorem C01_gen_cube_StdDevMeasure___init__ :
+  match src__StdDevMeasure___init__ with
+  | Some f => forall cd dims idx, f cd dims idx = mkPyMeasure MC_StdDev cd dims idx
+  | None => True end.
+Proof. exact gen_cube_StdDevMeasure___init__. Qed.
+Print Assumptions C01_gen_cube_StdDevMeasure___init__.
+
+Theorem C01_gen_cube_Measures_stddev :
+  match src__Measures_stddev, src__StdDevMeasure_raw_cube_array with
+  | Some f, Some g => forall X cd dims idx r,
+      g X (mkPyMeasure MC_StdDev cd dims idx) = POk r ->
+      f X (mkPyMeasures cd dims idx) = POk (opt_measure MC_StdDev cd dims idx r)
+  | _, _ => True end.
+Proof. exact gen_cube_Measures_stddev. Qed.
+Print Assumptions C01_gen_cube_Measures_stddev.
+
+Theorem C01_gen_cube_Cube_stddev :
+  match src_Cube_stddev, src_Cube__cube_response, src_Cube__all_dimensions with
+  | Some f, Some g1, Some g2 => forall X c ms more vs,
+      g1 X c = POk (measures_response ms more) -> g2 X c = POk (pydims_of vs) ->
+      (forall l, has_numeric ms "stddev" l -> List.length l = size_of (raw_shape (dims_of vs)) ->
+         reads_opt (f X c) (map nvalid (dims_of vs)) (Some (valid_tensor (dims_of vs) (num_decode l)))) /\
+      (dget ms "stddev" = None -> f X c = POk None)
+  | _, _, _ => True end.
+Proof. exact gen_cube_Cube_stddev. Qed.
+Print Assumptions C01_gen_cube_Cube_stddev.
+
+Theorem C01_gen_cube_CubeSet_has_weighted_counts :
+  match src_CubeSet_has_weighted_counts, src_CubeSet__cubes, src_Cube_has_weighted_counts with
+  | Some f, Some g1, Some g2 => forall X s c0 rest, g1 X s = POk (c0 :: rest) -> f X s = g2 X c0
+  | _, _, _ => True end.
+Proof. exact gen_cube_CubeSet_has_weighted_counts. Qed.
+Print Assumptions C01_gen_cube_CubeSet_has_weighted_counts.
+
+End GenAgreeCube_C01.
+(*END GenAgreeCube_C01*)
